@@ -31,7 +31,7 @@ Task: make ONE realistic change to the library source under {wt}/src/license_exp
   1. the property above no longer holds for at least one concrete input / call sequence, and
   2. the whole existing test suite still passes:  cd {wt} && PYTHONPATH={wt}/src /venv/bin/python -m pytest -q -p no:cacheprovider   (must report 187 passed)
 
-Prefer a subtle change: one that fails only on a narrow class of inputs (particular table shapes, flag combinations, call orders, repeated calls, unusual but legal characters, deep nesting, many operands, particular key orderings, rarely used entry points or keyword arguments, objects instead of strings, subclasses ...), so that a checker that only samples ordinary inputs would miss it. Earlier changes of this kind for this property needed the following to show up - find something DIFFERENT in mechanism and in the inputs that expose it:
+Prefer a subtle change: one that fails only on a narrow class of inputs (particular table shapes, flag combinations, call orders, repeated calls, unusual but legal characters, deep nesting, many operands, particular key orderings, rarely used entry points or keyword arguments, objects instead of strings, subclasses, the content and attributes of errors, the interaction of two public calls, state kept at module or class level ...), so that a checker that only samples ordinary inputs would miss it. Earlier changes of this kind for this property needed the following to show up - find something DIFFERENT in mechanism and in the inputs that expose it:
 {chr(10).join(earlier) if earlier else '- (none)'}
 
 Deliver, in {wt}:
